@@ -1,3 +1,899 @@
-(* C16 — proofs (under construction) *)
+(* C16 — proofs.  Part 1: the directory model (crash safety of the save sequence).
+   Part 2: the updater loop (SENDALL answers, saved configuration). *)
 From Coq Require Import String Ascii.
 From Dastard Require Import Common.ZX C16.Model C16.Spec.
+
+(* ------------------------------------------------------------------ names *)
+Lemma name_eqb_eq a b : name_eqb a b = true <-> a = b.
+Proof.
+  destruct a, b; cbn [name_eqb]; split; intro H; try reflexivity; try discriminate.
+  - apply Z.eqb_eq in H. now subst.
+  - inversion H; subst. apply Z.eqb_refl.
+Qed.
+Lemma name_eqb_refl a : name_eqb a a = true.
+Proof. now apply name_eqb_eq. Qed.
+Lemma name_eqb_neq a b : a <> b -> name_eqb a b = false.
+Proof.
+  intro H. destruct (name_eqb a b) eqn:E; [|reflexivity]. apply name_eqb_eq in E. contradiction.
+Qed.
+
+(* ------------------------------------------------------------------ part 1: directory *)
+Section FsProofs.
+  Context {A : Type}.
+  Implicit Types (f g : fs A) (c d : content A).
+
+  Lemma read_set f n c m :
+    read (set name_eqb n c f) m = if name_eqb m n then Some c else read f m.
+  Proof.
+    unfold read. induction f as [|[k v] r IH]; cbn [set lookup].
+    - reflexivity.
+    - destruct (name_eqb n k) eqn:Enk.
+      + apply name_eqb_eq in Enk; subst k. cbn [lookup].
+        destruct (name_eqb m n); reflexivity.
+      + cbn [lookup]. rewrite IH.
+        destruct (name_eqb m k) eqn:Emk; [|reflexivity].
+        apply name_eqb_eq in Emk; subst k.
+        destruct (name_eqb m n) eqn:Emn; [|reflexivity].
+        apply name_eqb_eq in Emn; subst. rewrite name_eqb_refl in Enk. discriminate.
+  Qed.
+
+  Lemma read_remove f n m :
+    read (remove name_eqb n f) m = if name_eqb m n then None else read f m.
+  Proof.
+    unfold read, remove. induction f as [|[k v] r IH]; cbn [filter lookup fst].
+    - destruct (name_eqb m n); reflexivity.
+    - destruct (name_eqb n k) eqn:Enk; cbn [negb].
+      + rewrite IH. apply name_eqb_eq in Enk; subst k.
+        destruct (name_eqb m n); reflexivity.
+      + cbn [lookup]. rewrite IH.
+        destruct (name_eqb m k) eqn:Emk; [|reflexivity].
+        apply name_eqb_eq in Emk; subst k.
+        rewrite (name_eqb_neq m n); [reflexivity|].
+        intro; subst. rewrite name_eqb_refl in Enk. discriminate.
+  Qed.
+
+  (* start-up on a directory that has a main file changes nothing and reads it *)
+  Lemma startup_reads f v : read f Main = Some v -> startup f = (f, Some v).
+  Proof.
+    intro H. unfold startup, make_file_exist. cbn [apply]. rewrite H. cbn [fst]. now rewrite H.
+  Qed.
+  (* start-up on a directory without main file creates an empty one *)
+  Lemma startup_creates f : read f Main = None -> snd (startup f) = Some [].
+  Proof.
+    intro H. unfold startup, make_file_exist. cbn [apply]. rewrite H. cbn [fst snd].
+    rewrite read_set. now rewrite name_eqb_refl.
+  Qed.
+  Lemma startup_never_missing f : exists v, snd (startup f) = Some v.
+  Proof.
+    destruct (read f Main) eqn:E.
+    - exists c. now rewrite (startup_reads _ _ E).
+    - exists []. now apply startup_creates.
+  Qed.
+
+  (* the tail of the save: remove bak; link main -> bak; rename tmp -> main *)
+  Lemma tail_states f old new faults g :
+    read f Main = Some old -> read f Tmp = Some new ->
+    In g (exec f [ (Remove Bak, ok_or_enoent); (Link Main Bak, ok_or_enoent); (Rename Tmp Main, any_result) ] faults) ->
+    read g Main = Some old \/ read g Main = Some new.
+  Proof.
+    intros Hm Ht Hin.
+    cbn [exec] in Hin.
+    destruct (hd false faults).
+    { cbn in Hin. contradiction. }
+    (* Remove Bak *)
+    set (f1 := fst (apply f (Remove Bak))) in *.
+    assert (H1m : read f1 Main = Some old).
+    { subst f1. cbn [apply]. destruct (read f Bak); cbn [fst]; [|exact Hm].
+      rewrite read_remove. cbn [name_eqb]. exact Hm. }
+    assert (H1t : read f1 Tmp = Some new).
+    { subst f1. cbn [apply]. destruct (read f Bak); cbn [fst]; [|exact Ht].
+      rewrite read_remove. cbn [name_eqb]. exact Ht. }
+    assert (H1b : read f1 Bak = None).
+    { subst f1. cbn [apply]. destruct (read f Bak) eqn:Eb; cbn [fst]; [|exact Eb].
+      rewrite read_remove. now rewrite name_eqb_refl. }
+    assert (Hcont : ok_or_enoent (snd (apply f (Remove Bak))) = true).
+    { cbn [apply]. destruct (read f Bak); reflexivity. }
+    destruct (apply f (Remove Bak)) as [f1' r1] eqn:E1. cbn [fst snd] in *. subst f1.
+    rewrite Hcont in Hin.
+    destruct Hin as [<- | Hin]; [now left|].
+    (* Link Main Bak *)
+    cbn [exec] in Hin.
+    destruct (hd false (tl faults)).
+    { cbn in Hin. contradiction. }
+    cbn [apply] in Hin. rewrite H1m, H1b in Hin. cbn [ok_or_enoent] in Hin.
+    set (f2 := set name_eqb Bak old f1') in *.
+    assert (H2m : read f2 Main = Some old) by (subst f2; rewrite read_set; cbn [name_eqb]; exact H1m).
+    assert (H2t : read f2 Tmp = Some new) by (subst f2; rewrite read_set; cbn [name_eqb]; exact H1t).
+    destruct Hin as [<- | Hin]; [now left|].
+    (* Rename Tmp Main *)
+    cbn [exec] in Hin.
+    destruct (hd false (tl (tl faults))).
+    { cbn [any_result] in Hin. destruct Hin as [<- | []]. now left. }
+    cbn [apply] in Hin. rewrite H2t in Hin. cbn [name_eqb any_result] in Hin.
+    destruct Hin as [<- | []].
+    right. rewrite read_set. now rewrite name_eqb_refl.
+  Qed.
+
+  (* the writes of the temporary file, followed by anything *)
+  Lemma appends_states chunks : forall f faults acc rest g,
+    read f Tmp = Some acc ->
+    In g (exec f (map (fun c => (Append Tmp c, is_ok)) chunks ++ rest) faults) ->
+    read g Main = read f Main \/
+    exists f2 faults2, read f2 Main = read f Main /\ read f2 Tmp = Some (acc ++ concat chunks) /\
+                       In g (exec f2 rest faults2).
+  Proof.
+    induction chunks as [|c cs IH]; intros f faults acc rest g Ht Hin.
+    - right. exists f, faults. cbn [map app concat] in *. rewrite app_nil_r. auto.
+    - cbn [map app exec] in Hin.
+      destruct (hd false faults).
+      { cbn in Hin. contradiction. }
+      cbn [apply] in Hin. rewrite Ht in Hin. cbn [is_ok] in Hin.
+      set (f1 := set name_eqb Tmp (acc ++ c) f) in *.
+      assert (H1m : read f1 Main = read f Main) by (subst f1; rewrite read_set; reflexivity).
+      assert (H1t : read f1 Tmp = Some (acc ++ c)) by (subst f1; rewrite read_set; reflexivity).
+      destruct Hin as [<- | Hin]; [now left|].
+      destruct (IH f1 (tl faults) (acc ++ c) rest g H1t Hin) as [H | (f2 & fl2 & Hm2 & Ht2 & Hin2)].
+      + left. congruence.
+      + right. exists f2, fl2. repeat split; try assumption.
+        * congruence.
+        * rewrite Ht2. cbn [concat]. now rewrite app_assoc.
+  Qed.
+
+  (* every state a kill during one save can leave has the complete old or the complete new main file *)
+  Lemma save_trace_main f old chunks faults g :
+    read f Main = Some old ->
+    In g (save_trace f chunks faults) ->
+    read g Main = Some old \/ read g Main = Some (concat chunks).
+  Proof.
+    intros Hm Hin. unfold save_trace in Hin.
+    destruct Hin as [<- | Hin]; [now left|].
+    unfold save_ops, write_config_as in Hin.
+    cbn [app exec] in Hin.
+    destruct (hd false faults).
+    { cbn in Hin. contradiction. }
+    cbn [apply is_ok] in Hin.
+    set (f1 := set name_eqb Tmp [] f) in *.
+    assert (H1m : read f1 Main = Some old) by (subst f1; rewrite read_set; exact Hm).
+    assert (H1t : read f1 Tmp = Some []) by (subst f1; rewrite read_set; reflexivity).
+    destruct Hin as [<- | Hin]; [now left|].
+    destruct (appends_states chunks f1 (tl faults) [] _ g H1t Hin) as [H | (f2 & fl2 & Hm2 & Ht2 & Hin2)].
+    - left. congruence.
+    - cbn [app] in Ht2. rewrite H1m in Hm2.
+      exact (tail_states f2 old (concat chunks) fl2 g Hm2 Ht2 Hin2).
+  Qed.
+
+  Lemma save_crash_safe_one f old chunks faults g :
+    read f Main = Some old ->
+    In g (save_trace f chunks faults) ->
+    snd (startup g) = Some old \/ snd (startup g) = Some (concat chunks).
+  Proof.
+    intros Hm Hin.
+    destruct (save_trace_main f old chunks faults g Hm Hin) as [H | H];
+      rewrite (startup_reads _ _ H); auto.
+  Qed.
+
+  Lemma reachable_main f0 v0 f vs :
+    read f0 Main = Some v0 -> reachable f0 f vs ->
+    exists v, read f Main = Some v /\ In v (vs ++ [v0]).
+  Proof.
+    intros H0 R. induction R as [| f vs chunks faults f' R IH Hin | f vs R IH].
+    - exists v0. split; [assumption | now left].
+    - destruct IH as (v & Hv & Hinv).
+      destruct (save_trace_main f v chunks faults f' Hv Hin) as [H | H].
+      + exists v. split; [assumption | now right].
+      + exists (concat chunks). split; [assumption | now left].
+    - destruct IH as (v & Hv & Hinv). exists v. rewrite (startup_reads _ _ Hv). auto.
+  Qed.
+
+  Lemma save_crash_safe_reachable f0 v0 f vs :
+    read f0 Main = Some v0 -> reachable f0 f vs ->
+    exists v, snd (startup f) = Some v /\ read f Main = Some v /\ In v (vs ++ [v0]).
+  Proof.
+    intros H0 R. destruct (reachable_main f0 v0 f vs H0 R) as (v & Hv & Hin).
+    exists v. rewrite (startup_reads _ _ Hv). auto.
+  Qed.
+
+  Lemma exec_cons f o cont rest faults :
+    exec f ((o, cont) :: rest) faults =
+    let '(f', r) := if hd false faults then (f, Some EOTHER) else apply f o in
+    if cont r then f' :: exec f' rest (tl faults) else [].
+  Proof. reflexivity. Qed.
+
+  (* a save that is not interrupted and meets no failure ends with the new content in the main file *)
+  Lemma save_completes f c :
+    read (last (save_trace f [c] []) f) Main = Some c /\ length (save_trace f [c] []) = 6%nat.
+  Proof.
+    unfold save_trace, save_ops, write_config_as. cbn [map app].
+    rewrite exec_cons. cbn [hd tl apply is_ok].
+    remember (set name_eqb Tmp [] f) as f1 eqn:Ef1.
+    assert (H1t : read f1 Tmp = Some []) by (rewrite Ef1, read_set; reflexivity).
+    rewrite exec_cons. cbn [hd tl apply]. rewrite H1t. cbn [is_ok app].
+    match goal with |- context [exec ?x _ _] => remember x as f2 eqn:Ef2 end.
+    assert (H2t : read f2 Tmp = Some c) by (rewrite Ef2, read_set; reflexivity).
+    rewrite exec_cons. cbn [hd tl].
+    assert (H3t : read (fst (apply f2 (Remove Bak))) Tmp = Some c).
+    { cbn [apply]. destruct (read f2 Bak); cbn [fst]; [|exact H2t].
+      rewrite read_remove. cbn [name_eqb]. exact H2t. }
+    assert (H3b : read (fst (apply f2 (Remove Bak))) Bak = None).
+    { cbn [apply]. destruct (read f2 Bak) eqn:Eb; cbn [fst]; [|exact Eb].
+      rewrite read_remove. now rewrite name_eqb_refl. }
+    assert (Hc3 : ok_or_enoent (snd (apply f2 (Remove Bak))) = true).
+    { cbn [apply]. destruct (read f2 Bak); reflexivity. }
+    destruct (apply f2 (Remove Bak)) as [f3 r3]. cbn [fst snd] in *.
+    rewrite Hc3.
+    rewrite exec_cons. cbn [hd tl].
+    assert (H4t : read (fst (apply f3 (Link Main Bak))) Tmp = Some c).
+    { cbn [apply]. rewrite H3b. destruct (read f3 Main); cbn [fst]; [|exact H3t].
+      rewrite read_set. cbn [name_eqb]. exact H3t. }
+    assert (Hc4 : ok_or_enoent (snd (apply f3 (Link Main Bak))) = true).
+    { cbn [apply]. rewrite H3b. destruct (read f3 Main); reflexivity. }
+    destruct (apply f3 (Link Main Bak)) as [f4 r4]. cbn [fst snd] in *.
+    rewrite Hc4.
+    rewrite exec_cons. cbn [hd tl apply]. rewrite H4t. cbn [name_eqb any_result exec].
+    split; [|reflexivity].
+    cbn [last]. rewrite read_set. now rewrite name_eqb_refl.
+  Qed.
+End FsProofs.
+
+(* the sequence before the fix: after its third step there is no main file *)
+Lemma save_crash_safe_refuted_before_fix :
+  exists (f : fs Z) (old : content Z) (chunks : list (content Z)) (faults : list bool) (g : fs Z),
+    read f Main = Some old /\ old <> [] /\
+    nth_error (save_trace_old f chunks faults) 4 = Some g /\
+    read g Main = None /\ snd (startup g) = Some [].
+Proof.
+  exists [(Main, [1])], [1], [[2]], [], [(Tmp, [2]); (Bak, [1])].
+  repeat split; try reflexivity. discriminate.
+Qed.
+
+(* ------------------------------------------------------------------ part 2: the updater loop *)
+Definition keys {V} (m : list (string * V)) : list string := map fst m.
+
+Section AssocStr.
+  Context {V : Type}.
+  Implicit Types (m : list (string * V)).
+
+  Lemma slookup_sset k v m k' :
+    slookup k' (sset k v m) = if String.eqb k' k then Some v else slookup k' m.
+  Proof.
+    unfold slookup, sset. induction m as [|[k0 v0] r IH]; cbn [set lookup].
+    - reflexivity.
+    - destruct (String.eqb k k0) eqn:E.
+      + apply String.eqb_eq in E; subst k0. cbn [lookup]. destruct (String.eqb k' k); reflexivity.
+      + cbn [lookup]. rewrite IH. destruct (String.eqb k' k0) eqn:E0; [|reflexivity].
+        apply String.eqb_eq in E0; subst k0.
+        destruct (String.eqb k' k) eqn:E1; [|reflexivity].
+        apply String.eqb_eq in E1; subst. rewrite String.eqb_refl in E. discriminate.
+  Qed.
+
+  Lemma keys_sset k v m k' : In k' (keys (sset k v m)) <-> k' = k \/ In k' (keys m).
+  Proof.
+    unfold keys, sset. induction m as [|[k0 v0] r IH]; cbn [set map fst In].
+    - intuition.
+    - destruct (String.eqb k k0) eqn:E.
+      + apply String.eqb_eq in E; subst k0. cbn [map fst In]. intuition.
+      + cbn [map fst In]. rewrite IH. intuition.
+  Qed.
+
+  Lemma nodup_sset k v m : NoDup (keys m) -> NoDup (keys (sset k v m)).
+  Proof.
+    unfold keys, sset. induction m as [|[k0 v0] r IH]; cbn [set map fst]; intro H.
+    - constructor; [intros []|constructor].
+    - inversion H as [|? ? Hn Hr]; subst.
+      destruct (String.eqb k k0) eqn:E.
+      + apply String.eqb_eq in E; subst k0. cbn [map fst]. now constructor.
+      + cbn [map fst]. constructor; [|now apply IH].
+        intro Hin. apply (keys_sset k v r k0) in Hin. destruct Hin as [->|Hin]; [|contradiction].
+        rewrite String.eqb_refl in E. discriminate.
+  Qed.
+
+  Lemma slookup_in k m : slookup k m <> None <-> In k (keys m).
+  Proof.
+    unfold slookup, keys. induction m as [|[k0 v0] r IH]; cbn [lookup map fst In].
+    - intuition.
+    - destruct (String.eqb k k0) eqn:E.
+      + apply String.eqb_eq in E; subst. split; [auto | discriminate].
+      + rewrite IH. split; [auto|]. intros [->|H]; [|exact H].
+        rewrite String.eqb_refl in E. discriminate.
+  Qed.
+
+  Lemma slookup_some_in k v m : slookup k m = Some v -> In (k, v) m.
+  Proof.
+    unfold slookup. induction m as [|[k0 v0] r IH]; cbn [lookup]; [discriminate|].
+    destruct (String.eqb k k0) eqn:E.
+    - apply String.eqb_eq in E; subst. intro H; inversion H; subst. now left.
+    - intro H. right. now apply IH.
+  Qed.
+End AssocStr.
+
+Lemma run_snoc y h e : fst (run y (h ++ [e])) = fst (step (fst (run y h)) e).
+Proof.
+  revert y. induction h as [|a h IH]; intro y; cbn [app run fst].
+  - destruct (step y e) as [y1 o]. reflexivity.
+  - destruct (step y a) as [y1 o]. specialize (IH y1).
+    destruct (run y1 (h ++ [e])) as [y2 os]. destruct (run y1 h) as [y3 os3].
+    cbn [fst] in *. exact IH.
+Qed.
+
+Lemma last_text_snoc t h e :
+  last_text t (h ++ [e]) =
+  match e with
+  | Update tag _ text => if String.eqb tag t then Some text else last_text t h
+  | _ => last_text t h
+  end.
+Proof.
+  induction h as [|a h IH]; cbn [app last_text].
+  - reflexivity.
+  - rewrite IH. destruct e as [tag o x| | |]; try reflexivity.
+    destruct (String.eqb tag t); reflexivity.
+Qed.
+
+Lemma last_obj_snoc t h e :
+  last_obj t (h ++ [e]) =
+  match e with
+  | Update tag obj _ => if String.eqb tag t then Some obj else last_obj t h
+  | _ => last_obj t h
+  end.
+Proof.
+  induction h as [|a h IH]; cbn [app last_obj].
+  - reflexivity.
+  - rewrite IH. destruct e as [tag o x| | |]; try reflexivity.
+    destruct (String.eqb tag t); reflexivity.
+Qed.
+
+Lemma updated_tags_snoc h e :
+  updated_tags (h ++ [e]) = updated_tags h ++ match e with Update tag _ _ => [tag] | _ => [] end.
+Proof.
+  induction h as [|a h IH]; cbn [app updated_tags].
+  - destruct e; reflexivity.
+  - destruct a; rewrite IH; reflexivity.
+Qed.
+
+Lemma nopublish_is_comment t : nopublish t = mem_str t comment_keys.
+Proof. reflexivity. Qed.
+
+(* what the loop remembers after a history *)
+Record Inv (h : list event) (y : sys) : Prop := {
+  inv_nodup : NoDup (keys (objs y));
+  inv_texts : forall t, slookup t (texts y) =
+                        if String.eqb t "NEWDASTARD" then None else last_text t h;
+  inv_keys1 : forall t, slookup t (texts y) <> None -> In t (keys (objs y));
+  inv_keys2 : forall t, In t (keys (objs y)) -> slookup t (texts y) <> None \/ nopublish t = true
+}.
+
+Lemma text_of_some y t x : text_of y t = x -> x <> EmptyString -> slookup t (texts y) = Some x.
+Proof.
+  unfold text_of. destruct (slookup t (texts y)); intros H Hx; subst; [reflexivity | contradiction].
+Qed.
+
+Lemma inv_step h y e : wf_event e -> Inv h y -> Inv (h ++ [e]) (fst (step y e)).
+Proof.
+  intros Hwf [Hnd Htx Hk1 Hk2].
+  destruct e as [tag obj text | | | now faults].
+  - (* Update *)
+    cbn [wf_event] in Hwf. cbn [step].
+    destruct (String.eqb tag "NEWDASTARD") eqn:End.
+    + apply String.eqb_eq in End; subst tag. cbn [fst].
+      split; try assumption. intro t. rewrite Htx, last_text_snoc.
+      destruct (String.eqb t "NEWDASTARD") eqn:E; [reflexivity|].
+      rewrite String.eqb_sym, E. reflexivity.
+    + destruct (String.eqb (text_of y tag) text) eqn:Esame; cbn [negb fst].
+      * apply String.eqb_eq in Esame.
+        pose proof (text_of_some y tag text Esame Hwf) as Hl.
+        split; try assumption. intro t. rewrite last_text_snoc.
+        destruct (String.eqb tag t) eqn:E.
+        -- apply String.eqb_eq in E; subst t. rewrite End. exact Hl.
+        -- apply Htx.
+      * split; cbn [objs texts].
+        -- now apply nodup_sset.
+        -- intro t. rewrite slookup_sset, last_text_snoc, (String.eqb_sym t tag).
+           destruct (String.eqb tag t) eqn:E.
+           ++ apply String.eqb_eq in E; subst t. now rewrite End.
+           ++ apply Htx.
+        -- intro t. rewrite slookup_sset. intro H. apply keys_sset.
+           destruct (String.eqb t tag) eqn:E.
+           ++ left. now apply String.eqb_eq.
+           ++ right. now apply Hk1.
+        -- intros t H. apply keys_sset in H. rewrite slookup_sset.
+           destruct (String.eqb t tag) eqn:E.
+           ++ left. discriminate.
+           ++ destruct H as [->|H]; [rewrite String.eqb_refl in E; discriminate|]. now apply Hk2.
+  - (* SendAll *)
+    cbn [step fst]. split; try assumption. intro t. rewrite last_text_snoc. apply Htx.
+  - (* Wait *)
+    cbn [step fst]. split; try assumption. intro t. rewrite last_text_snoc. apply Htx.
+  - (* SaveTick *)
+    cbn [step save_state fst objs texts]. split; cbn [objs texts].
+    + unfold inject. now repeat apply nodup_sset.
+    + intro t. rewrite last_text_snoc. apply Htx.
+    + intros t H. unfold inject. apply keys_sset. right. apply keys_sset. right. apply keys_sset. right.
+      now apply Hk1.
+    + intros t H. unfold inject in H.
+      apply keys_sset in H. destruct H as [->|H]; [now right|].
+      apply keys_sset in H. destruct H as [->|H]; [now right|].
+      apply keys_sset in H. destruct H as [->|H]; [now right|].
+      now apply Hk2.
+Qed.
+
+Lemma inv_init cfg d : Inv [] (init_sys cfg d).
+Proof.
+  split; cbn [init_sys objs texts keys map].
+  - constructor.
+  - intro t. cbn. destruct (String.eqb t "NEWDASTARD"); reflexivity.
+  - intros t H. now cbn in H.
+  - intros t [].
+Qed.
+
+Lemma inv_run cfg d h : Forall wf_event h -> Inv h (fst (run (init_sys cfg d) h)).
+Proof.
+  induction h as [|e h IH] using rev_ind; intro Hwf.
+  - cbn [run fst]. apply inv_init.
+  - rewrite run_snoc. apply Forall_app in Hwf as [Hh He]. inversion He; subst.
+    apply inv_step; auto.
+Qed.
+
+Lemma in_sendall y o t b :
+  In (t, b) (flat_map (fun kv : string * string => publish (fst kv) (text_of y (fst kv))) o) <->
+  In t (keys o) /\ nopublish t = false /\ b = text_of y t.
+Proof.
+  unfold keys. induction o as [|[k v] r IH]; cbn [flat_map map fst In].
+  - intuition.
+  - rewrite in_app_iff, IH. unfold publish. destruct (nopublish k) eqn:E; cbn [In].
+    + split.
+      * intros [[]|H]; intuition.
+      * intros ([->|H] & Hn & Hb); [congruence | right; auto].
+    + split.
+      * intros [[H|[]]|H]; [inversion H; subst; auto | intuition].
+      * intros ([->|H] & Hn & ->); [left; now left | right; auto].
+Qed.
+
+Lemma nodup_sendall y o :
+  NoDup (keys o) ->
+  NoDup (map fst (flat_map (fun kv : string * string => publish (fst kv) (text_of y (fst kv))) o)).
+Proof.
+  unfold keys. induction o as [|[k v] r IH]; cbn [flat_map map fst]; intro H.
+  - constructor.
+  - inversion H as [|? ? Hn Hr]; subst. rewrite map_app. unfold publish at 1.
+    destruct (nopublish k); cbn [map app fst]; [now apply IH|].
+    constructor; [|now apply IH].
+    intro Hin. apply in_map_iff in Hin as ([t b] & Ht & Hin). cbn [fst] in Ht; subst t.
+    apply in_sendall in Hin as (Hin & _). contradiction.
+Qed.
+
+(* the answer to SENDALL after any history *)
+Lemma sendall_last_per_topic cfg d h l :
+  Forall wf_event h ->
+  snd (step (fst (run (init_sys cfg d) h)) SendAll) = Published l ->
+  sendall_spec h l.
+Proof.
+  intros Hwf Hout. pose proof (inv_run cfg d h Hwf) as [Hnd Htx Hk1 Hk2].
+  set (y := fst (run (init_sys cfg d) h)) in *.
+  cbn [step snd] in Hout. inversion Hout as [Hl]. clear Hout.
+  split.
+  - now apply nodup_sendall.
+  - intros t b. rewrite in_sendall. unfold status_topic. rewrite <- nopublish_is_comment.
+    split.
+    + intros (Hin & Hnp & ->). rewrite Hnp. cbn [negb andb].
+      destruct (Hk2 t Hin) as [Hs | Hs]; [|congruence].
+      rewrite Htx in Hs. unfold event_tags, mem_str. cbn [existsb].
+      destruct (String.eqb t "NEWDASTARD") eqn:E; [contradiction|].
+      cbn [orb negb]. split; [reflexivity|].
+      unfold text_of. rewrite Htx, E. destruct (last_text t h); [reflexivity | contradiction].
+    + intros (Hst & Hlast).
+      apply andb_true_iff in Hst as [Hev Hnp]. apply negb_true_iff in Hnp.
+      unfold event_tags, mem_str in Hev. cbn [existsb] in Hev.
+      destruct (String.eqb t "NEWDASTARD") eqn:E; [discriminate|].
+      assert (Hs : slookup t (texts y) = Some b) by (rewrite Htx, E; exact Hlast).
+      repeat split; [|exact Hnp|].
+      * apply Hk1. rewrite Hs. discriminate.
+      * unfold text_of. now rewrite Hs.
+Qed.
+
+(* ---- the saved configuration ---- *)
+Definition injected : list string := ["CURRENTTIME"; "___1"; "___2"]%string.
+
+Lemma nosave_is_volatile t : nosave t = mem_str (to_lower t) volatile_topics.
+Proof. reflexivity. Qed.
+
+Lemma last_obj_none t h : last_text t h = None -> last_obj t h = None.
+Proof.
+  induction h as [|a h IH]; cbn [last_text last_obj]; [reflexivity|].
+  destruct (last_text t h); [discriminate|]. rewrite (IH eq_refl).
+  destruct a as [tag o x| | |]; try reflexivity. destruct (String.eqb tag t); [discriminate | reflexivity].
+Qed.
+
+Lemma last_pair t h x :
+  last_text t h = Some x -> exists o, last_obj t h = Some o /\ In (Update t o x) h.
+Proof.
+  induction h as [|a h IH]; cbn [last_text last_obj]; [discriminate|].
+  destruct (last_text t h) as [x'|] eqn:E.
+  - intro H; inversion H; subst x'. destruct (IH eq_refl) as (o & Ho & Hin).
+    exists o. rewrite Ho. split; [reflexivity | now right].
+  - rewrite (last_obj_none _ _ E). destruct a as [tag o x0| | |]; try discriminate.
+    destruct (String.eqb tag t) eqn:Et; [|discriminate].
+    apply String.eqb_eq in Et; subst tag. intro H; inversion H; subst x0.
+    exists o. split; [reflexivity | now left].
+Qed.
+
+Lemma overlay_lookup (a b : config) k :
+  NoDup (keys a) ->
+  slookup k (overlay a b) = match slookup k a with Some v => Some v | None => slookup k b end.
+Proof.
+  unfold overlay. revert b. induction a as [|[k0 v0] r IH]; intros b Hnd; cbn [fold_left fst snd].
+  - reflexivity.
+  - inversion Hnd as [|? ? Hn Hr]; subst. rewrite (IH _ Hr).
+    unfold slookup at 3. cbn [lookup]. fold (@slookup string).
+    destruct (String.eqb k k0) eqn:E.
+    + apply String.eqb_eq in E; subst k0.
+      destruct (slookup k r) eqn:El.
+      * exfalso. apply Hn. apply slookup_in. rewrite El. discriminate.
+      * rewrite slookup_sset, String.eqb_refl. reflexivity.
+    + destruct (slookup k r); [reflexivity|]. rewrite slookup_sset, E. reflexivity.
+Qed.
+
+Lemma viper_set_all_other (o : list (string * string)) : forall over k,
+  (forall t, In t (keys o) -> to_lower t <> k \/ nosave t = true) ->
+  slookup k (viper_set_all o over) = slookup k over.
+Proof.
+  unfold viper_set_all. induction o as [|[t0 v0] r IH]; intros over k H; cbn [fold_left fst snd].
+  - reflexivity.
+  - rewrite IH.
+    + destruct (H t0 (or_introl eq_refl)) as [Hne | Hns].
+      * destruct (nosave t0); [reflexivity|]. rewrite slookup_sset.
+        destruct (String.eqb k (to_lower t0)) eqn:E; [|reflexivity].
+        apply String.eqb_eq in E. congruence.
+      * now rewrite Hns.
+    + intros t Ht. apply H. now right.
+Qed.
+
+Lemma viper_set_all_nodup (o : list (string * string)) : forall over,
+  NoDup (keys over) -> NoDup (keys (viper_set_all o over)).
+Proof.
+  unfold viper_set_all. induction o as [|[t0 v0] r IH]; intros over H; cbn [fold_left fst snd].
+  - exact H.
+  - apply IH. destruct (nosave t0); [exact H | now apply nodup_sset].
+Qed.
+
+Lemma viper_set_all_sets (o : list (string * string)) : forall over t v,
+  NoDup (keys o) ->
+  (forall t1 t2, In t1 (keys o) -> In t2 (keys o) -> to_lower t1 = to_lower t2 -> t1 = t2) ->
+  In (t, v) o -> nosave t = false ->
+  slookup (to_lower t) (viper_set_all o over) = Some v.
+Proof.
+  induction o as [|[t0 v0] r IH]; intros over t v Hnd Hinj Hin Hns; [destruct Hin|].
+  inversion Hnd as [|? ? Hn Hr]; subst.
+  destruct Hin as [Heq | Hin].
+  - inversion Heq; subst t0 v0. unfold viper_set_all. cbn [fold_left fst snd]. rewrite Hns.
+    fold (viper_set_all r (sset (to_lower t) v over)).
+    rewrite viper_set_all_other.
+    + rewrite slookup_sset, String.eqb_refl. reflexivity.
+    + intros t' Ht'. left. intro Hl. apply Hn.
+      assert (t' = t) by (apply Hinj; [now right | now left | exact Hl]). now subst.
+  - unfold viper_set_all. cbn [fold_left fst snd].
+    match goal with |- slookup _ (fold_left _ r ?ov) = _ => fold (viper_set_all r ov) end.
+    apply IH; auto.
+    intros t1 t2 H1 H2. apply Hinj; now right.
+Qed.
+
+Record Inv2 (cfg : config) (h : list event) (y : sys) : Prop := {
+  inv_objs : forall t, ~ In t injected ->
+                       slookup t (objs y) = if String.eqb t "NEWDASTARD" then None else last_obj t h;
+  inv_over : NoDup (keys (v_over y));
+  inv_keys3 : forall t, In t (keys (objs y)) -> In t (updated_tags h ++ injected);
+  inv_cfg : v_config y = cfg
+}.
+
+Lemma consistent_prefix h e : consistent (h ++ [e]) -> consistent h.
+Proof.
+  intros H t o1 x1 o2 x2 H1 H2 Hx. apply (H t o1 x1 o2 x2); [apply in_or_app; now left | apply in_or_app; now left | exact Hx].
+Qed.
+
+Lemma inv2_step cfg h y e :
+  wf_event e -> consistent (h ++ [e]) -> Inv h y -> Inv2 cfg h y -> Inv2 cfg (h ++ [e]) (fst (step y e)).
+Proof.
+  intros Hwf Hcons [Hnd Htx Hk1 Hk2] [Hob Hov Hk3 Hcfg].
+  destruct e as [tag obj text | | | now faults].
+  - cbn [wf_event] in Hwf. cbn [step].
+    destruct (String.eqb tag "NEWDASTARD") eqn:End.
+    + apply String.eqb_eq in End; subst tag. cbn [fst]. split; try assumption.
+      * intros t Ht. rewrite (Hob t Ht), last_obj_snoc.
+        destruct (String.eqb t "NEWDASTARD") eqn:E; [reflexivity|].
+        rewrite String.eqb_sym, E. reflexivity.
+      * intros t Ht. rewrite updated_tags_snoc. specialize (Hk3 t Ht).
+        apply in_app_or in Hk3. apply in_or_app. destruct Hk3; [left; apply in_or_app; now left | now right].
+    + destruct (String.eqb (text_of y tag) text) eqn:Esame; cbn [negb fst].
+      * apply String.eqb_eq in Esame.
+        pose proof (text_of_some y tag text Esame Hwf) as Hl.
+        rewrite Htx, End in Hl.
+        destruct (last_pair tag h text Hl) as (o1 & Ho1 & Hin1).
+        assert (o1 = obj).
+        { apply (Hcons tag o1 text obj text); [apply in_or_app; now left | apply in_or_app; right; now left | reflexivity]. }
+        subst o1.
+        split; try assumption.
+        -- intros t Ht. rewrite (Hob t Ht), last_obj_snoc.
+           destruct (String.eqb tag t) eqn:E; [|reflexivity].
+           apply String.eqb_eq in E; subst t. rewrite End. now rewrite Ho1.
+        -- intros t Ht. rewrite updated_tags_snoc. specialize (Hk3 t Ht).
+           apply in_app_or in Hk3. apply in_or_app. destruct Hk3; [left; apply in_or_app; now left | now right].
+      * split; cbn [objs v_over v_config]; try assumption.
+        -- intros t Ht. rewrite slookup_sset, last_obj_snoc, (String.eqb_sym t tag).
+           destruct (String.eqb tag t) eqn:E.
+           ++ apply String.eqb_eq in E; subst t. now rewrite End.
+           ++ now apply Hob.
+        -- intros t Ht. rewrite updated_tags_snoc. apply keys_sset in Ht. apply in_or_app.
+           destruct Ht as [->|Ht].
+           ++ left. apply in_or_app. right. now left.
+           ++ specialize (Hk3 t Ht). apply in_app_or in Hk3.
+              destruct Hk3; [left; apply in_or_app; now left | now right].
+  - cbn [step fst]. split; try assumption.
+    + intros t Ht. rewrite last_obj_snoc. now apply Hob.
+    + intros t Ht. rewrite updated_tags_snoc, app_nil_r. now apply Hk3.
+  - cbn [step fst]. split; try assumption.
+    + intros t Ht. rewrite last_obj_snoc. now apply Hob.
+    + intros t Ht. rewrite updated_tags_snoc, app_nil_r. now apply Hk3.
+  - cbn [step save_state fst objs v_over v_config]. split; cbn [objs v_over v_config]; try assumption.
+    + intros t Ht. rewrite last_obj_snoc. unfold inject.
+      assert (forall k, In k injected -> String.eqb t k = false) as Hne.
+      { intros k Hk. destruct (String.eqb t k) eqn:E; [|reflexivity].
+        apply String.eqb_eq in E; subst. contradiction. }
+      rewrite !slookup_sset.
+      rewrite (Hne "CURRENTTIME"%string), (Hne "___2"%string), (Hne "___1"%string);
+        try (cbn; tauto).
+      now apply Hob.
+    + now apply viper_set_all_nodup.
+    + intros t Ht. rewrite updated_tags_snoc, app_nil_r. unfold inject in Ht.
+      apply keys_sset in Ht. destruct Ht as [->|Ht]; [apply in_or_app; right; cbn; tauto|].
+      apply keys_sset in Ht. destruct Ht as [->|Ht]; [apply in_or_app; right; cbn; tauto|].
+      apply keys_sset in Ht. destruct Ht as [->|Ht]; [apply in_or_app; right; cbn; tauto|].
+      now apply Hk3.
+Qed.
+
+Lemma inv2_run cfg d h :
+  Forall wf_event h -> consistent h -> Inv2 cfg h (fst (run (init_sys cfg d) h)).
+Proof.
+  induction h as [|e h IH] using rev_ind; intros Hwf Hcons.
+  - cbn [run fst]. split; cbn [init_sys objs v_over v_config keys map].
+    + intros t _. cbn. destruct (String.eqb t "NEWDASTARD"); reflexivity.
+    + constructor.
+    + intros t [].
+    + reflexivity.
+  - rewrite run_snoc. apply Forall_app in Hwf as [Hh He]. inversion He; subst.
+    apply inv2_step; auto.
+    + now apply inv_run.
+    + apply IH; auto. now apply consistent_prefix with e.
+Qed.
+
+Lemma saved_latest cfg d h now :
+  Forall wf_event h -> consistent h -> case_distinct h ->
+  let y := fst (run (init_sys cfg d) h) in
+  let y' := fst (step y (SaveTick now [])) in
+  exists saved,
+    snd (startup (disk y')) = Some saved /\
+    saved_spec h saved /\
+    (forall k, (forall t, In t (updated_tags h ++ ["CURRENTTIME"; "___1"; "___2"]%string) ->
+                          to_lower t <> k \/ nosave t = true) ->
+               slookup k saved = slookup k (all_settings y)).
+Proof.
+  intros Hwf Hcons Hdist y y'.
+  pose proof (inv_run cfg d h Hwf) as [Hnd Htx Hk1 Hk2].
+  pose proof (inv2_run cfg d h Hwf Hcons) as [Hob Hov Hk3 Hcfg].
+  fold y in Hnd, Htx, Hk1, Hk2, Hob, Hov, Hk3, Hcfg.
+  set (o := inject now (objs y)).
+  set (over := viper_set_all o (v_over y)).
+  set (y1 := {| objs := o; texts := texts y; armed := armed y;
+                v_config := v_config y; v_over := over; disk := disk y |}).
+  exists (all_settings y1).
+  assert (Hnd_o : NoDup (keys o)) by (unfold o, inject; now repeat apply nodup_sset).
+  assert (Hk3o : forall t, In t (keys o) -> In t (updated_tags h ++ injected)).
+  { intros t Ht. unfold o, inject in Ht.
+    apply keys_sset in Ht. destruct Ht as [->|Ht]; [apply in_or_app; right; cbn; tauto|].
+    apply keys_sset in Ht. destruct Ht as [->|Ht]; [apply in_or_app; right; cbn; tauto|].
+    apply keys_sset in Ht. destruct Ht as [->|Ht]; [apply in_or_app; right; cbn; tauto|].
+    now apply Hk3. }
+  assert (Hnd_over : NoDup (keys over)) by (now apply viper_set_all_nodup).
+  split; [|split].
+  - subst y'. cbn [step save_state fst disk].
+    destruct (save_completes (disk y) (all_settings y1)) as [Hread _].
+    exact (f_equal snd (startup_reads _ _ Hread)).
+  - intros t ob Hpers Hlast.
+    apply andb_true_iff in Hpers as [Hst Hvol]. apply negb_true_iff in Hvol.
+    rewrite <- nosave_is_volatile in Hvol.
+    apply andb_true_iff in Hst as [Hev Hcom]. apply negb_true_iff in Hcom.
+    unfold event_tags, mem_str in Hev. cbn [existsb] in Hev.
+    destruct (String.eqb t "NEWDASTARD") eqn:End; [discriminate|].
+    assert (Hninj : ~ In t injected).
+    { intro Hin. unfold comment_keys, mem_str in Hcom. cbn [existsb] in Hcom.
+      cbn [injected In] in Hin. destruct Hin as [<-|[<-|[<-|[]]]]; discriminate. }
+    assert (Hlo : slookup t o = Some ob).
+    { unfold o, inject. rewrite !slookup_sset.
+      assert (forall k, In k injected -> String.eqb t k = false) as Hne.
+      { intros k Hk. destruct (String.eqb t k) eqn:E; [|reflexivity].
+        apply String.eqb_eq in E. rewrite <- E in Hk. contradiction. }
+      rewrite (Hne "CURRENTTIME"%string), (Hne "___2"%string), (Hne "___1"%string); try (cbn; tauto).
+      rewrite (Hob t Hninj), End. exact Hlast. }
+    unfold all_settings. cbn [v_over v_config y1]. rewrite (overlay_lookup over _ _ Hnd_over).
+    unfold over. rewrite (viper_set_all_sets o (v_over y) t ob);
+      [reflexivity | exact Hnd_o | | now apply slookup_some_in | exact Hvol].
+    intros t1 t2 H1 H2. apply Hdist; [now apply Hk3o | now apply Hk3o].
+  - intros k Hk. unfold all_settings. cbn [v_over v_config y1].
+    rewrite (overlay_lookup over _ _ Hnd_over), (overlay_lookup (v_over y) _ _ Hov).
+    unfold over. rewrite viper_set_all_other; [reflexivity|].
+    intros t Ht. apply Hk. now apply Hk3o.
+Qed.
+
+(* ---- the save step of the whole system is a save of the directory model ---- *)
+Lemma step_savetick y now faults :
+  snd (step y (SaveTick now faults)) =
+  Saved (save_trace (disk y) [all_settings (fst (save_state y now faults))] faults)
+        (map (fun f => snd (startup f))
+             (save_trace (disk y) [all_settings (fst (save_state y now faults))] faults)).
+Proof. reflexivity. Qed.
+
+Lemma updater_save_safe y now faults tr reads old :
+  snd (step y (SaveTick now faults)) = Saved tr reads ->
+  read (disk y) Main = Some old ->
+  exists written,
+    tr = save_trace (disk y) [written] faults /\
+    written = all_settings (fst (save_state y now faults)) /\
+    forall r, In r reads -> r = Some old \/ r = Some written.
+Proof.
+  intros Hout Hm. rewrite step_savetick in Hout.
+  set (w := all_settings (fst (save_state y now faults))) in *.
+  assert (Htr : tr = save_trace (disk y) [w] faults) by (injection Hout; auto).
+  assert (Hreads : reads = map (fun f => snd (startup f)) (save_trace (disk y) [w] faults))
+    by (injection Hout; auto).
+  clear Hout. subst tr reads.
+  exists w. split; [reflexivity|]. split; [reflexivity|].
+  intros r Hin. apply in_map_iff in Hin as (g & <- & Hg).
+  destruct (save_crash_safe_one (disk y) old _ faults g Hm Hg) as [H | H]; [now left|].
+  right. rewrite H. cbn [concat]. now rewrite app_nil_r.
+Qed.
+
+(* ---- soundness of the boolean checkers with respect to the Prop-level statements ---- *)
+Lemma mem_str_in x l : mem_str x l = true <-> In x l.
+Proof.
+  unfold mem_str. rewrite existsb_exists. split.
+  - intros (y & Hy & E). apply String.eqb_eq in E. now subst.
+  - intro H. exists x. split; [exact H | apply String.eqb_refl].
+Qed.
+
+Lemma nodupb_nodup l : nodupb l = true -> NoDup l.
+Proof.
+  induction l as [|x r IH]; cbn [nodupb]; intro H; [constructor|].
+  apply andb_true_iff in H as [Hx Hr]. constructor; [|now apply IH].
+  intro Hin. apply mem_str_in in Hin. rewrite Hin in Hx. discriminate.
+Qed.
+
+Lemma opt_str_eqb_eq a b : opt_str_eqb a b = true -> a = b.
+Proof.
+  destruct a, b; cbn; intro H; try discriminate; [|reflexivity].
+  apply String.eqb_eq in H. now subst.
+Qed.
+
+Lemma last_text_updated t h x : last_text t h = Some x -> In t (updated_tags h).
+Proof.
+  induction h as [|a h IH]; cbn [last_text updated_tags]; [discriminate|].
+  destruct a as [tag o x0| | |]; cbn [In];
+    destruct (last_text t h) eqn:E; intro H; try discriminate; try (now apply IH).
+  - right. now apply IH.
+  - destruct (String.eqb tag t) eqn:Et; [|discriminate]. apply String.eqb_eq in Et. now left.
+Qed.
+
+Lemma last_obj_updated t h x : last_obj t h = Some x -> In t (updated_tags h).
+Proof.
+  induction h as [|a h IH]; cbn [last_obj updated_tags]; [discriminate|].
+  destruct a as [tag o x0| | |]; cbn [In];
+    destruct (last_obj t h) eqn:E; intro H; try discriminate; try (now apply IH).
+  - right. now apply IH.
+  - destruct (String.eqb tag t) eqn:Et; [|discriminate]. apply String.eqb_eq in Et. now left.
+Qed.
+
+Lemma sendall_check_sound before l : sendall_check before l = true -> sendall_spec before l.
+Proof.
+  unfold sendall_check. intro H.
+  apply andb_true_iff in H as [H H3]. apply andb_true_iff in H as [H1 H2].
+  rewrite forallb_forall in H2, H3.
+  assert (Hfwd : forall t b, In (t, b) l -> status_topic t = true /\ last_text t before = Some b).
+  { intros t b Hin. specialize (H2 _ Hin). cbn [fst snd] in H2.
+    apply andb_true_iff in H2 as [Hs He]. split; [exact Hs | now apply opt_str_eqb_eq]. }
+  split; [now apply nodupb_nodup|].
+  intros t b. split; [apply Hfwd|].
+  intros (Hs & Hl).
+  specialize (H3 t (last_text_updated _ _ _ Hl)). rewrite Hs in H3. cbn [negb orb] in H3.
+  apply mem_str_in in H3. apply in_map_iff in H3 as ([t' b'] & Ht & Hin). cbn [fst] in Ht; subst t'.
+  destruct (Hfwd _ _ Hin) as (_ & Hl'). rewrite Hl in Hl'. inversion Hl'; subst. exact Hin.
+Qed.
+
+Lemma saved_check_sound before cfg : saved_check before cfg = true -> saved_spec before cfg.
+Proof.
+  unfold saved_check. rewrite forallb_forall. intros H t o Hp Hl.
+  specialize (H t (last_obj_updated _ _ _ Hl)). rewrite Hp in H. cbn [negb orb] in H.
+  apply opt_str_eqb_eq in H. now rewrite H.
+Qed.
+
+Lemma entry_eqb_eq a b : entry_eqb a b = true <-> a = b.
+Proof.
+  destruct a as [a1 a2], b as [b1 b2]. unfold entry_eqb. cbn [fst snd].
+  rewrite andb_true_iff, !String.eqb_eq. split; [intros [-> ->]; reflexivity | intro H; inversion H; auto].
+Qed.
+
+Lemma config_eqb_eq a b : config_eqb a b = true <-> a = b.
+Proof. apply list_eqb_eq. apply entry_eqb_eq. Qed.
+
+Lemma crash_check_sound reads w : crash_check reads w = true -> crash_spec reads w.
+Proof.
+  unfold crash_check, crash_spec. destruct reads as [|[old|] rest]; try discriminate.
+  rewrite forallb_forall. intro H. exists old. split; [reflexivity|].
+  intros r Hin. specialize (H r Hin). destruct r as [c|]; [|discriminate].
+  apply orb_true_iff in H as [H | H]; apply config_eqb_eq in H; subst; auto.
+Qed.
+
+(* what an accepted history means, position by position *)
+Lemma check_from_at pre0 pre e o post :
+  check_from pre0 (pre ++ (e, o) :: post) = true -> check_one (pre0 ++ map fst pre) e o = true.
+Proof.
+  revert pre0. induction pre as [|[e0 o0] pre IH]; intros pre0; cbn [app check_from map fst].
+  - rewrite app_nil_r. intro H. now apply andb_true_iff in H as [H _].
+  - intro H. apply andb_true_iff in H as [_ H]. specialize (IH _ H).
+    now rewrite <- app_assoc in IH.
+Qed.
+
+Lemma checker_accepts_means pre e o post :
+  C16_check (pre ++ (e, o) :: post) = true ->
+  match e, o with
+  | SendAll, Published l => sendall_spec (map fst pre) l
+  | SaveTick _ faults, Saved trace reads =>
+      match written_of trace with
+      | Some w => crash_spec reads w /\
+                  (completed faults trace = true ->
+                   exists cfg, last reads None = Some cfg /\ saved_spec (map fst pre) cfg)
+      | None => True
+      end
+  | _, _ => True
+  end.
+Proof.
+  intro H. apply (check_from_at [] pre e o post) in H. cbn [app] in H.
+  destruct e as [tag ob x| | |now faults], o as [l|b|tr reads]; try exact I.
+  - cbn [check_one] in H. now apply sendall_check_sound.
+  - cbn [check_one] in H. destruct (written_of tr) as [w|]; [|exact I].
+    apply andb_true_iff in H as [Hc Hs]. split; [now apply crash_check_sound|].
+    intro Hcomp. rewrite Hcomp in Hs. destruct (last reads None) as [cfg|]; [|discriminate].
+    exists cfg. split; [reflexivity | now apply saved_check_sound].
+Qed.
+
+(* ---- concrete inputs meeting the hypotheses (non-vacuity) ---- *)
+Definition example_history : list event :=
+  [ Update "STATUS" "{""Nsamples"":1000}" "{""Running"":false,""Nsamples"":1000}";
+    Update "ALIVE" "1" "1";
+    Update "STATUS" "{""Nsamples"":2000}" "{""Running"":true,""Nsamples"":2000}";
+    SendAll;
+    Update "STATUS" "{""Nsamples"":2000}" "{""Running"":true,""Nsamples"":2000}";
+    Update "TRIGGER" "[]" "[]" ]%string.
+
+Lemma example_wf : Forall wf_event example_history.
+Proof. repeat constructor; cbn; discriminate. Qed.
+
+Lemma example_consistent : consistent example_history.
+Proof.
+  intros t o1 x1 o2 x2 H1 H2 Hx. cbn [example_history In] in H1, H2.
+  repeat match goal with
+         | H : _ \/ _ |- _ => destruct H
+         | H : False |- _ => destruct H
+         | H : Update _ _ _ = Update _ _ _ |- _ => inversion H; clear H
+         | H : SendAll = Update _ _ _ |- _ => discriminate H
+         end; subst; try reflexivity; try discriminate.
+Qed.
+
+Lemma example_case_distinct : case_distinct example_history.
+Proof.
+  intros t1 t2 H1 H2 Hl. cbn [example_history updated_tags app In] in H1, H2.
+  repeat match goal with
+         | H : _ \/ _ |- _ => destruct H
+         | H : False |- _ => destruct H
+         end; subst; try reflexivity; vm_compute in Hl; discriminate.
+Qed.
+
+Lemma example_answer :
+  snd (step (fst (run (init_sys [] [(Main, [])]) example_history)) SendAll)
+  = Published [("STATUS", "{""Running"":true,""Nsamples"":2000}"); ("ALIVE", "1"); ("TRIGGER", "[]")]%string.
+Proof. vm_compute. reflexivity. Qed.
